@@ -1,11 +1,11 @@
 package props
 
 import (
-	"github.com/wrgl/wrgl/pkg/diff"
-	"github.com/wrgl/wrgl/pkg/progress"
 	"bytes"
 	"encoding/json"
 	"fmt"
+	"github.com/wrgl/wrgl/pkg/diff"
+	"github.com/wrgl/wrgl/pkg/progress"
 	"io"
 	"os"
 	"os/exec"
